@@ -32,7 +32,7 @@ def build_obj(obj):
     syms.append(struct.pack(end + "IIIBBH", 0, 0, 0, 3, 0, 1))          # STT_SECTION, local
     index = {}
     locals_ = set(obj.get("local_funcs", []))
-    for (n, off, size) in [f for f in funcs if f[0] in locals_]:
+    for (n, off, size) in [f for f in funcs if f[0] in locals_ and not obj.get("strip_locals")]:
         index[n] = len(syms)
         syms.append(struct.pack(end + "IIIBBH", name_off(n), off, size, (0 << 4) | 2, 0, 1))   # LOCAL FUNC in .text
     first_global = len(syms)
